@@ -111,10 +111,11 @@ Definition UV_EMFILE : Z := -24.
 Definition UV_EAGAIN : Z := -11.
 
 (* the child either reaches a successful exec with this table, or stops in
-   uv__write_errno/uv__write_int(error_fd, err) with the table of that moment *)
+   uv__write_errno/uv__write_int(error_fd, err) with the table of that moment
+   and the value error_fd has at that moment *)
 Inductive cres :=
 | CExec (t : tbl)
-| CFail (t : tbl) (err : Z).
+| CFail (t : tbl) (efd : nat) (err : Z).
 
 Inductive res (A : Type) :=
 | Ok (a : A)
@@ -188,19 +189,30 @@ Fixpoint pass2 (sc fd : nat) (us : list (option nat)) (t : tbl) : res tbl :=
       end
   end.
 
-(* [us]: one element per slot 0..stdio_count-1; [exec_err]: errno of execvp,
-   None when it succeeds.  cwd/uid/gid/signals are not modelled. *)
-Definition child_init (us : list (option nat)) (exec_err : option Z) (t : tbl) : cres :=
+(* process.c:320-337 (commit a79de05): the error pipe is created after the
+   stdio pairs, so its number can be below stdio_count; it is moved above
+   first.  None = the fcntl failed (uv__write_errno on the old number). *)
+Definition move_efd (sc efd : nat) (t : tbl) : option (tbl * nat) :=
+  if (efd <? sc)%nat then dupfd_cloexec t efd sc else Some (t, efd).
+
+(* [us]: one element per slot 0..stdio_count-1; [efd]: error_fd; [exec_err]:
+   errno of execvp, None when it succeeds.  cwd/uid/gid/signals are not modelled. *)
+Definition child_init (us : list (option nat)) (efd : nat) (exec_err : option Z) (t : tbl)
+  : cres :=
   let sc := length us in
-  match pass1 sc 0 us t with
-  | Fail t1 e => CFail t1 e
-  | Ok (t1, us1) =>
-      match pass2 sc 0 us1 t1 with
-      | Fail t2 e => CFail t2 e
-      | Ok t2 =>
-          match exec_err with
-          | None => CExec (exec t2)
-          | Some e => CFail t2 (- e)
+  match move_efd sc efd t with
+  | None => CFail t efd (- EBADF)
+  | Some (t0, efd1) =>
+      match pass1 sc 0 us t0 with
+      | Fail t1 e => CFail t1 efd1 e
+      | Ok (t1, us1) =>
+          match pass2 sc 0 us1 t1 with
+          | Fail t2 e => CFail t2 efd1 e
+          | Ok t2 =>
+              match exec_err with
+              | None => CExec (exec t2)
+              | Some e => CFail t2 efd1 (- e)
+              end
           end
       end
   end.
@@ -346,19 +358,19 @@ Definition spawn_child (t : tbl) (us : list (option nat)) (fresh : nat)
   let '(t1, rfd) := alloc t 0 fresh true in            (* pipe2(O_CLOEXEC) *)
   let '(t2, wfd) := alloc t1 0 (S fresh) true in
   if fork_fail then (UV_EAGAIN, close (close t2 wfd) rfd, None, None, None, wo) else
-  let c := child_init us exec_err t2 in                (* the child works on a copy *)
+  let c := child_init us wfd exec_err t2 in            (* the child works on a copy *)
   let tp := close t2 wfd in
   match c with
   | CExec _ => (0, close tp rfd, Some c, None, None, wo)      (* r == 0: EOF *)
-  | CFail tc e =>
-      match get tc wfd with
+  | CFail tc efd e =>
+      match get tc efd with
       | Some w =>
           if (e_file w =? S fresh)%nat then
             (* the int arrives: r == sizeof(int); reap the child *)
             let '(a, wo1) := wait_retry wo in
             (e, close tp rfd, Some c, Some (Some (e_file w), e), Some a, wo1)
           else
-            (* error_fd now names another file: the parent sees EOF *)
+            (* error_fd names another file: the parent sees EOF *)
             (0, close tp rfd, Some c, Some (Some (e_file w), e), None, wo)
       | None => (0, close tp rfd, Some c, Some (None, e), None, wo)
       end
